@@ -104,3 +104,12 @@ Require Copia.Proofs.TieHubDelete.
 Theorem C13_handlers_are_translation_of_source : TieHubDelete.hub_delete_is_translation.
 Proof. exact TieHubDelete.hub_delete_is_translation_holds. Qed.
 Print Assumptions C13_handlers_are_translation_of_source.
+
+(** The CLIENT of the theorems above - [hub_sync_from]: one List, then for every local file in path order a skip when
+    the LISTED digest equals the local one, else a CAS Put whose `expected` is the LISTED digest; three counters; exit
+    status ok iff no Put came back uncommitted - is the translation of hub.rs `hub_sync` as the source has it now
+    (Gen/HubSyncGen.v, Proofs/TieHubSync.v), for every listing (fresh or stale), hub tree and local tree. *)
+Require Copia.Proofs.TieHubSync.
+Theorem C13_client_is_translation_of_source : TieHubSync.hub_sync_is_translation.
+Proof. exact TieHubSync.hub_sync_is_translation_holds. Qed.
+Print Assumptions C13_client_is_translation_of_source.
